@@ -1,5 +1,5 @@
 PROOFS = [
-  dict(name="received_safeput", properties=["C07"], entry="h_safeput", units=["harness.c"], mode="plain", unwind=12, timeout=120, min_tagged=2,
+  dict(name="received_safeput", tier="thorough", properties=["C07"], entry="h_safeput", units=["harness.c"], mode="plain", unwind=12, timeout=120, min_tagged=2,
        title="received.c safeput()/issafe(): every byte of a peer-supplied string written into the Received field is safe, for every string of <= 10 bytes",
        functions=["received.c:safeput", "received.c:issafe"], bounded="peer strings of at most 10 bytes, every byte value (the check is per byte)",
        canaries=[dict(name="backslash-is-safe", file="received.c", literal=True, pattern="  if (ch == '[') return 1;", repl="  if (ch == '[') return 1;\n  if (ch == '\\\\') return 1;", expect=r"C07: every byte of a peer-supplied"),
